@@ -37,9 +37,13 @@ func handleRequestID(r *http.Request, w http.ResponseWriter, cfg config.LoggingC
 		return ""
 	}
 
-	requestID := strings.TrimSpace(r.Header.Get(header))
+	supplied := r.Header.Get(header)
+	requestID := strings.TrimSpace(supplied)
 	if requestID == "" {
 		requestID = generateIdentifier("req")
+	}
+	if requestID != supplied {
+		// keep what the backend sees identical to what the client gets back
 		r.Header.Set(header, requestID)
 	}
 	w.Header().Set(header, requestID)
@@ -51,9 +55,13 @@ func handleTraceID(r *http.Request, w http.ResponseWriter, cfg config.LoggingCon
 		return ""
 	}
 
-	traceID := strings.TrimSpace(r.Header.Get(header))
+	supplied := r.Header.Get(header)
+	traceID := strings.TrimSpace(supplied)
 	if traceID == "" {
 		traceID = generateIdentifier("trace")
+	}
+	if traceID != supplied {
+		// keep what the backend sees identical to what the client gets back
 		r.Header.Set(header, traceID)
 	}
 	w.Header().Set(header, traceID)
